@@ -517,6 +517,9 @@ def rule_r6(p, res):
         raise AnalysisError("C03.R6: only %d as_non_alignment overrides found (floor 5)" % n)
 
 
+# rules of sibling properties over code paths this property's statement also quantifies over (DESIGN.md section 3, shared rules)
+ALSO = ['C02.R6', 'C20.R4']
+
 RULES = [rule_r1, rule_r2, rule_r3, rule_r4, rule_r5, rule_r6]
 
 WITNESSES = [
